@@ -636,6 +636,43 @@ func vC12Gen(e *vEnv, r *vRand) []vCase {
 	}
 	n := e.scale(480, 4000)
 	var cases []vCase
+	// regression cases first: the minimal inputs of the three defects found on the pinned tree
+	// (known_findings.json C12-shape-crash, C12-hello-write-deadlock, C12-bye-write-nil-conn)
+	{
+		pre := []string{"start rid=1 hide=1 feat=1"}
+		hel := append(append([]string{}, pre...), vC12PeerOp("peer", welcome))
+		joi := append(append([]string{}, hel...), vC12PeerOp("peer", hello(1)), vC12PeerOp("peer", room(true)))
+		add := func(prefix []string, kind, doc string, tail ...string) {
+			ops := append(append([]string{}, prefix...), vC12PeerOp(kind, doc))
+			ops = append(ops, "probe")
+			cases = append(cases, vCase{Ops: append(ops, tail...), Tags: []string{"regression"}})
+		}
+		add(pre, "peer", `{"type":"welcome"}`)
+		add(hel, "peer", `{"id":"@HID1@","type":"hello"}`)
+		add(hel, "peer", `{"id":"@HID1@","type":"error"}`)
+		for _, t := range []string{"control", "event", "error", "room", "message"} {
+			add(joi, "peer", `{"type":"`+t+`"}`)
+		}
+		for _, tt := range [][2]string{{"participants", "update"}, {"participants", "flags"}, {"participants", "message"}, {"room", "message"},
+			{"roomlist", "invite"}, {"roomlist", "disinvite"}, {"roomlist", "update"}} {
+			add(joi, "peer", `{"type":"event","event":{"target":"`+tt[0]+`","type":"`+tt[1]+`"}}`)
+		}
+		add(joi, "peer", `{"type":"event","event":{"target":"room","type":"join","join":[null]}}`)
+		add(joi, "peer", `{"type":"event","event":{"target":"room","type":"join","join":[{"sessionid":"a","user":{"displayname":"x"}},null]}}`)
+		add(joi, "peer", `{"type":"event","event":{"target":"participants","type":"update","update":{"roomid":"r","users":[{"userId":"u"}]}}}`)
+		add(joi, "peer", `{"type":"event","event":{"target":"participants","type":"update","update":{"roomid":"r","changed":[{"sessionId":5}]}}}`)
+		add(joi, "peer", `{"type":"event","event":{"target":"participants","type":"update","update":{"roomid":"r","users":[null]}}}`)
+		add(pre, "peerwf", welcome, "expire")
+		add(hel, "peerwf", `{"type":"unexpected"}`, "expire")
+		add(hel, "peerwf", hello(1), "expire")
+		add(hel, "peerwf", `{"id":"@HID1@","type":"error","error":{"code":"no_such_session"}}`, "expire")
+		add(hel, "peerwf", `{"id":"@HID1@","type":"error","error":{"code":"invalid_token","message":"no"}}`, "expire")
+		add(pre, "peerwf", `{"type":"welcome","welcome":{"version":"1.0","features":["other"]}}`, "expire")
+		add(joi, "peerwf", `{"type":"room","room":{"roomid":""}}`, "expire")
+		// a local message for a client that was closed with an error after it could resume: queued
+		cases = append(cases, vCase{Ops: append(append([]string{}, joi...), "drop close",
+			vC12PeerOp("peerwf", `{"type":"welcome","welcome":{"version":"1.0"}}`), "local msg", "local msg", "probe"), Tags: []string{"regression"}})
+	}
 	for i := 0; i < n; i++ {
 		rr := r.fork()
 		rid, hide := rr.chance(1, 2), rr.chance(1, 3)
